@@ -109,6 +109,7 @@ type edgeState struct {
 // FuncVC generates the verification conditions of one function.
 type FuncVC struct {
 	eng  *Engine
+	qfactSeen map[string]bool
 	fn   *ssa.Function
 	con  *Contract
 	sc   *Script
@@ -1081,6 +1082,22 @@ func (f *FuncVC) pureFacts(st *State, v *Val) {
 			if pat == "" {
 				return // no usable trigger: skip rather than risk an unguided axiom
 			}
+			// the same typing axiom under the same path condition is emitted once
+			// (contract clauses are evaluated many times: every loop entry,
+			// preservation and exit re-evaluates the same quantified loads)
+			canon := fact + " @ " + pat
+			for i, d := range decls {
+				bn := d[1:strings.Index(d, " ")]
+				canon = strings.ReplaceAll(canon, bn, fmt.Sprintf("BV%d", i))
+			}
+			key := st.pc + "|" + canon
+			if f.qfactSeen == nil {
+				f.qfactSeen = map[string]bool{}
+			}
+			if f.qfactSeen[key] && os.Getenv("GVC_NO_QDEDUP") == "" {
+				return
+			}
+			f.qfactSeen[key] = true
 			f.fact(st, "(forall ("+strings.Join(decls, " ")+") (! "+fact+" :pattern ("+pat+")))")
 			return
 		}
@@ -1090,6 +1107,12 @@ func (f *FuncVC) pureFacts(st *State, v *Val) {
 	case KInt:
 		if b := basicOf(v.Ty); b != nil {
 			if lo, hi, ok := intRange(b); ok {
+				if (b.Kind() == types.Int || b.Kind() == types.Int64) && f.mentionsBound(v.T) && os.Getenv("GVC_Q64") == "" {
+					// the 64-bit range of a signed element read under a quantifier is
+					// never what a proof needs (it cannot exclude a wrap), but as a
+					// two-variable axiom over every int slice it floods E-matching
+					break
+				}
 				emit(v.T, and(cmp("<=", numBig(lo), v.T), cmp("<=", v.T, numBig(hi))))
 			}
 		}
